@@ -655,8 +655,10 @@ fn rule_c11(ctx: &Ctx, out: &mut Vec<Violation>) {
                     let deleted_after_create = m.topic_deletes.get(&topic).map(|d| d.iter().any(|dc| m.calls[dc].returned_ok() && m.calls[dc].inv_seq > create.ret_seq_or_max() && m.calls[dc].ret_seq.unwrap() < c.inv_seq)).unwrap_or(false);
                     let maybe_deleted = m.topic_deletes.get(&topic).map(|d| d.iter().any(|dc| m.calls[dc].maybe_effective() && m.calls[dc].effect_end_seq() > create.inv_seq && m.calls[dc].inv_seq < c.inv_seq)).unwrap_or(false);
                     if deleted_after_create && sv.topic != "_deleted_topic_" {
-                        // transient handles keep the topic alive only while requests are in flight
-                        if !any_call_in_flight(ctx, c.inv_seq) {
+                        // transient handles keep the topic alive only while requests that hold one are
+                        // in flight (publisher-side requests and creates / deletes; consumers - Pull,
+                        // StreamingPull, Acknowledge, ModifyAckDeadline - only hold the subscription)
+                        if !topic_holder_in_flight(ctx, c.inv_seq) {
                             out.push(v("C11.orphan", "topic_not_reported_deleted", format!("GetSubscription({}) at quiescence reports topic {:?} although its topic was deleted", sub, sv.topic)));
                         }
                     }
@@ -678,6 +680,13 @@ fn in_flight_mutation(ctx: &Ctx, seq: u64) -> bool {
     ctx.m.calls.values().any(|c| matches!(c.req, Req::CreateSub { .. } | Req::DeleteSub { .. } | Req::CreateTopic { .. } | Req::DeleteTopic { .. }) && c.inv_seq < seq && c.ret_seq_or_max() > seq)
 }
 
+fn topic_holder_in_flight(ctx: &Ctx, seq: u64) -> bool {
+    ctx.m.calls.values().any(|c| {
+        !matches!(c.req, Req::Pull { .. } | Req::DrainPull { .. } | Req::Ack { .. } | Req::ModAck { .. } | Req::GetSub { .. }) && c.inv_seq < seq && c.ret_seq_or_max() > seq
+    })
+}
+
+#[allow(dead_code)]
 fn any_call_in_flight(ctx: &Ctx, seq: u64) -> bool {
     ctx.m.calls.values().any(|c| c.inv_seq < seq && c.ret_seq_or_max() > seq) || ctx.m.streams.values().any(|s| s.open_seq < seq && s.end.as_ref().map(|e| e.0 > seq).unwrap_or(true))
 }
